@@ -134,6 +134,22 @@ CHECKS["C05"] = dict(
     technique="TLC trace validation of timed event logs from the real lock against a TLA+ timed contract; TLA+ model of the renewal chain checked by TLC",
     design_ref="DESIGN.md section 4, C05")
 
+CHECKS["C20"] = dict(
+    text="ZipFs.tla states the contract (Select(tree, filter, recursive); Resolve = filepath.Join/Clean on '.', '..' and leading '/'; "
+         "RoundTripOK: files below dest = Select; Confined: everything outside dest unchanged). ZipImpl.tla transcribes ZipFolder (walk, "
+         "filter, non-recursive guard, entry name) and UnzipToFolder (containment test, EnsureDirExists, os.Create, stop at first error); "
+         "TLC checks it against the contract for every tree of the bound (2-3 names, depth <=3, <=3 files, 3 contents, optional empty dir) "
+         "x every filter x flag, and for every archive of <=3 entries over names of <=3 segments from {.., ., a, b, dest, dest2} with/without "
+         "leading '/'. Every transition is replayed on the real ZipFolder/UnzipToFolder (archives written with archive/zip directly, sandbox "
+         "outside dest with decoy files compared before/after, inside a chroot jail); seeded random trees (depth 0..4, hundreds of files, "
+         "empty/binary/MB-sized contents, names with spaces/dots/unicode) and random hostile archives are recorded and validated by TLC "
+         "against ZipTrace.tla. Bounded model checking plus conformance, not a proof for all trees/archives.",
+    note="Trusted: TLC, the ZipFs.tla contract, Go's archive/zip writer/reader (harness verifies the reader hands the written names to the "
+         "library; GODEBUG zipinsecurepath=1 pinned), the before/after file-system snapshot. Symlink entries, pre-populated destinations "
+         "and non-canonical spellings of srcDir are outside the property and not exercised.",
+    technique="TLA+ contract + implementation-shaped spec checked by TLC, per-transition behaviour replay on the real functions in a chroot sandbox, seeded driver with TLC trace validation",
+    design_ref="DESIGN.md section 4, C20")
+
 
 PENDING_REASON = "check not built yet in this round; the TLA+ design for it is in DESIGN.md section 4"
 
